@@ -1298,8 +1298,13 @@ static void uv__stream_connect(uv_stream_t* stream) {
   if (error < 0) {
     uv__stream_flush_write_queue(stream, UV_ECANCELED);
     uv__write_callbacks(stream);
-    /* A shutdown queued behind the writes is reported, too (ENOTCONN). */
-    if (uv__stream_fd(stream) != -1 &&
+    /* A shutdown queued behind the writes is reported, too (ENOTCONN), unless
+     * the callback started another connect: uv__drain() stops POLLOUT, which
+     * that request is waiting for; the shutdown then waits with it.
+     */
+    if (uv__is_stream_shutting(stream) &&
+        stream->connect_req == NULL &&
+        uv__stream_fd(stream) != -1 &&
         uv__queue_empty(&stream->write_queue) &&
         uv__queue_empty(&stream->write_completed_queue))
       uv__drain(stream);
